@@ -688,4 +688,95 @@ theorem defaultFields_ls : ∀ (subs : List Schema) (pid : Nat) (b : Bool) (next
       · exact LS.consNew hfd (defaultFields_ls fs pid b (fromDefaults f (some pid) f.key next).next hs.2)
 end
 
+theorem keys_of_map_hdr {a b : List Node} (hab : a.map Node.hdr = b.map Node.hdr) : a.map Node.key = b.map Node.key := by
+  have := congrArg (List.map (fun t : Nat × Option Nat × Schema × Str × Option Bool × Option Str => t.2.2.2.1)) hab
+  simpa [List.map_map, Function.comp_def, Node.hdr] using this
+
+mutual
+theorem setDefault_ls : ∀ (n : Node) (next : Nat), kok n = true →
+    LS next [n] (setDefault n next).next [(setDefault n next).node]
+  | .mk i s kids, next, hk => by
+    have hs : swf s = true := kok_swf hk
+    have hself : LS next [.mk i s kids] next [.mk i s kids] := LS.same rfl hk
+    have hset : ∀ d, LS next [.mk i s kids] (setNode (.mk i s kids) d none next).next [(setNode (.mk i s kids) d none next).node] :=
+      fun d => setNode_ls d _ none next hk
+    have hsubs : swfL s.subs = true := (swfL_iff _).mpr (swf_subs hs)
+    have hre : ∀ (ks : List Node) (n1 : Nat), (isMap s.kind = true → (ks.map Node.key).Nodup) →
+        LS next [] n1 ks → LS next [.mk i s kids] n1 [.mk i s ks] :=
+      fun ks n1 hkeys h => LS.rehead rfl hk hkeys h.forget
+    have hseq : ∀ (xs : List Raw) (m : Schema), swf m = true → isMap s.kind = false →
+        LS next [.mk i s kids]
+          (attachAll (Node.mk i s []) (buildItems m xs next).1 (buildItems m xs next).2.1).2
+          [(attachAll (Node.mk i s []) (buildItems m xs next).1 (buildItems m xs next).2.1).1] := by
+      intro xs m hm hmap
+      have hB := buildItems_ls xs m next hm
+      have hE : kok (Node.mk i s []) = true := by
+        rw [kok_iff]; exact ⟨hs, fun _ => by simp [Node.kids], fun k hk' => by cases hk'⟩
+      have hA := attachAll_ls (buildItems m xs next).1 (.mk i s []) (buildItems m xs next).2.1 hE hmap hB.hkok
+      have h1 : LS next [Node.mk i s []] (buildItems m xs next).2.1 (Node.mk i s [] :: (buildItems m xs next).1) := by
+        have := (LS.refl next (kok_single.mpr hE)).append hB; simpa using this
+      exact (h1.trans hA).of_le (fun x => by simp only [cntL_singleton, cnt_mk, cntL_nil]; omega)
+    have hempt : ∀ (xs : List Raw) (m : Schema), swf m = true →
+        LS next [.mk i s kids] (buildItems m xs next).2.1 [.mk i s []] :=
+      fun xs m hm => (LS.rehead rfl hk (fun _ => by simp) (LS.nil next kids)).mono (buildItems_ls xs m next hm).hle
+    unfold setDefault
+    split
+    · exact hset _
+    · exact hset _
+    · exact hself
+    · rename_i hkd
+      split
+      · exact hself
+      · split
+        · rename_i m hm
+          exact hre _ _ (fun h => by rw [hkd] at h; cases h)
+            (defaultSlotsWith_ls _ (fun nx => fromDefaults_ls m none [] nx (swf_member hs hm)) _ _ _ _)
+        · exact hself
+      · exact hset _
+    · rename_i hkd
+      split
+      · exact hself
+      · split
+        · rename_i m hm
+          dsimp only
+          split
+          · exact hseq _ m (swf_member hs hm) (by rw [hkd]; rfl)
+          · exact hempt _ m (swf_member hs hm)
+        · exact hself
+      · exact hself
+    · rename_i hkd
+      split
+      · exact hself
+      · split
+        · rename_i m hm
+          dsimp only
+          split
+          · exact hseq _ m (swf_member hs hm) (by rw [hkd]; rfl)
+          · exact hempt _ m (swf_member hs hm)
+        · exact hself
+      · exact hself
+    · split
+      · have hK := setDefaultKids_ls kids next (kok_kids hk)
+        exact LS.rehead rfl hk
+          (fun hm => by rw [keys_of_map_hdr (Flatland.C10.Proofs.setDefaultKids_hdr kids next)]; exact kok_keys hk hm) hK
+      · exact hset _
+    · split
+      · split
+        · exact hre _ _ (fun hm => by rw [defaultFields_keys]; exact nodup_filter_keys (((swf_iff _).mp hs).1 hm) _)
+            (defaultFields_ls s.subs _ true _ hsubs)
+        · exact hre _ _ (fun _ => by simp) (LS.nil _ _)
+      · exact hset _
+theorem setDefaultKids_ls : ∀ (kids : List Node) (next : Nat), kokL kids = true →
+    LS next kids (setDefaultKids kids next).2.1 (setDefaultKids kids next).1
+  | [], next, _ => by rw [setDefaultKids]; exact LS.nil _ _
+  | k :: ks, next, h => by
+    rw [kokL, Bool.and_eq_true] at h
+    have hk := setDefault_ls k next h.1
+    rw [setDefaultKids]
+    dsimp only
+    split
+    · exact LS.cons hk (LS.refl _ h.2)
+    · exact LS.cons hk (setDefaultKids_ls ks (setDefault k next).next h.2)
+end
+
 end Flatland.C08.Proofs
